@@ -114,9 +114,9 @@ def codes (g : G) (c : Array Nat) : List Nat :=
 /-- leaf certificate = `op.value` at a leaf -/
 def cert (g : G) (c : Array Nat) : List Nat := (codes g c).mergeSort (fun a b => decide (a ≤ b))
 
-/-- initial colouring: `cls v` = index of the vertex class of `v` (`NewOrderedPartition`); worklist `[0]` as in the Go
-code (which puts only bin 0 on `binsToCheck`, also when there are several classes) -/
-def initSt (g : G) (ncls : Nat) (cls : Nat → Nat) : St := { c := tab g.n cls, cells := ncls, work := [0] }
+/-- initial colouring: `cls v` = index of the vertex class of `v` (`NewOrderedPartition`); every class bin is on the
+initial worklist (`binsToCheck = [0, …, ncls-1]`) -/
+def initSt (g : G) (ncls : Nat) (cls : Nat → Nat) : St := { c := tab g.n cls, cells := ncls, work := List.range ncls }
 
 /-- no vertex classes = one class -/
 def init (g : G) : St := initSt g 1 (fun _ => 0)
